@@ -211,7 +211,7 @@ func newSide(eng string, s settings, limit uint32, cache wazero.CompilationCache
 	} else {
 		rc = wazero.NewRuntimeConfigInterpreter()
 	}
-	rc = rc.WithCoreFeatures(api.CoreFeaturesV2 | experimental.CoreFeaturesTailCall).WithMemoryLimitPages(limit).WithMemoryCapacityFromMax(s.CFM).
+	rc = rc.WithCoreFeatures(api.CoreFeaturesV2 | experimental.CoreFeaturesTailCall | experimental.CoreFeaturesThreads).WithMemoryLimitPages(limit).WithMemoryCapacityFromMax(s.CFM).
 		WithDebugInfoEnabled(!s.NoDebug).WithCustomSections(s.Custom).WithCloseOnContextDone(s.CloseCtx)
 	if cache != nil {
 		rc = rc.WithCompilationCache(cache)
@@ -232,7 +232,9 @@ func newSide(eng string, s settings, limit uint32, cache wazero.CompilationCache
 		}
 	} else {
 		_, err := sd.rt.NewHostModuleBuilder("env").
-			NewFunctionBuilder().WithFunc(func(_ context.Context, a, bb uint32) { sd.hostlog = append(sd.hostlog, fmt.Sprintf("log(%d,%d)", a, bb)) }).Export("log").
+			NewFunctionBuilder().WithFunc(func(_ context.Context, a, bb uint32) {
+			sd.hostlog = append(sd.hostlog, fmt.Sprintf("log(%d,%d)", a, bb))
+		}).Export("log").
 			NewFunctionBuilder().WithFunc(func(_ context.Context, a uint64) { sd.hostlog = append(sd.hostlog, fmt.Sprintf("log64(%d)", a)) }).Export("log64").
 			NewFunctionBuilder().WithFunc(func(_ context.Context, a, bb uint32) uint32 {
 			sd.hostlog = append(sd.hostlog, fmt.Sprintf("add(%d,%d)", a, bb))
